@@ -6,7 +6,7 @@ from xdsl.dialects import builtin
 from xdsl.dialects.arith import AddiOp, ConstantOp, DivUIOp, MuliOp
 from xdsl.dialects.builtin import DYNAMIC_INDEX, FixedBitwidthType, IndexType
 from xdsl.dialects.memref import ExtractAlignedPointerAsIndexOp, SubviewOp
-from xdsl.ir import Attribute, Operation, OpResult
+from xdsl.ir import Attribute, Operation, OpResult, SSAValue
 from xdsl.parser import MemRefType
 from xdsl.passes import ModulePass
 from xdsl.pattern_rewriter import (
@@ -32,9 +32,14 @@ class LowerExtractAlignedPointerOp(RewritePattern):
         assert isa(source_type := subview.source.type, MemRefType[Attribute])
         if not isinstance(source_type.layout, TiledStridedLayoutAttr):
             return
-        dynamic_index_list = [
-            i for i, offset in enumerate(subview.static_offsets.get_values()) if offset == DYNAMIC_INDEX
-        ]
+        # every non-zero offset moves the pointer: dynamic ones are operands, static ones become constants
+        dynamic_offsets = iter(subview.offsets)
+        offset_list: list[tuple[int, SSAValue | int]] = []
+        for i, static_offset in enumerate(subview.static_offsets.get_values()):
+            if static_offset == DYNAMIC_INDEX:
+                offset_list.append((i, next(dynamic_offsets)))
+            elif static_offset != 0:
+                offset_list.append((i, static_offset))
         ops_to_add: list[Operation] = []
         aligned_pointer = ExtractAlignedPointerAsIndexOp.get(subview.source)
         ops_to_add.append(aligned_pointer)
@@ -42,7 +47,11 @@ class LowerExtractAlignedPointerOp(RewritePattern):
         assert isinstance(element_type, FixedBitwidthType)
         bytes_op = ConstantOp.from_int_and_width(element_type.size, IndexType())
         ops_to_add.append(bytes_op)
-        for offset, index in zip(subview.offsets, dynamic_index_list):
+        for index, offset in offset_list:
+            if isinstance(offset, int):
+                offset_cst = ConstantOp.from_int_and_width(offset, IndexType())
+                ops_to_add.append(offset_cst)
+                offset = offset_cst.result
             stride = source_type.layout.data.tstrides[index].strides[0].step
             assert stride is not None
             stride_op = ConstantOp.from_int_and_width(stride, IndexType())
@@ -54,7 +63,8 @@ class LowerExtractAlignedPointerOp(RewritePattern):
             offset_op = MuliOp(offset_div, stride_bytes_op)
             aligned_pointer = AddiOp(aligned_pointer, offset_op)
             ops_to_add.extend([stride_op, stride_bytes_op, bound_op, offset_div, offset_op, aligned_pointer])
-        rewriter.replace_op(op, ops_to_add)
+        # the pointer is the last *pointer* op (without offsets the last op is the element-size constant)
+        rewriter.replace_op(op, ops_to_add, new_results=aligned_pointer.results)
 
 
 class ConvertMemrefToArithPass(ModulePass):
